@@ -278,13 +278,24 @@ func forgedTail(m *master, data []byte, c crashCase, r *rand.Rand) []byte {
 		src = r.IntN(exp) // an older one, so that accepting it shows
 	}
 	var b []byte
-	for n := r.IntN(20); n > 0; n-- {
-		b = append(b, byte(1+r.IntN(255)))
+	frames := 1
+	if c.Mode == "forgedmany" {
+		// several state-like frames after the newest real state: repair's backward search (exponential, then
+		// binary) has to step over all of them
+		frames = 2 + r.IntN(8)
 	}
-	o := int(m.States[src].Off)
-	st := append([]byte{}, data[o:o+stateLen]...)
-	st[15] ^= 1
-	b = append(b, st...)
+	for f := 0; f < frames; f++ {
+		for n := r.IntN(20); n > 0; n-- {
+			b = append(b, byte(1+r.IntN(255)))
+		}
+		o := int(m.States[src].Off)
+		st := append([]byte{}, data[o:o+stateLen]...)
+		st[15] ^= 1
+		if f > 0 {
+			st[16+f%8] ^= byte(1 + f)
+		}
+		b = append(b, st...)
+	}
 	if c.Mode == "forgedmarker" {
 		b = append(b, shutdown...)
 	}
@@ -292,7 +303,7 @@ func forgedTail(m *master, data []byte, c crashCase, r *rand.Rand) []byte {
 }
 
 func tailBytes(m *master, data []byte, c crashCase, seed uint64) []byte {
-	if c.Mode == "forged" || c.Mode == "forgedmarker" {
+	if c.Mode == "forged" || c.Mode == "forgedmarker" || c.Mode == "forgedmany" {
 		r := rand.New(rand.NewPCG(seed, uint64(c.L)*2654435761+11))
 		if b := forgedTail(m, data, c, r); b != nil {
 			return b
@@ -663,7 +674,7 @@ func TestVerifC05(t *testing.T) {
 		var ec []crashCase
 		for L := vk.Shard(); L <= em.Size; L += vk.NShards() {
 			ec = append(ec, crashCase{L, "absent", "startup"}, crashCase{L, "absent", "action"}, crashCase{L, "zero", "startup"},
-				[]crashCase{{L, "garbage", "startup"}, {L, "garbage", "action"}, {L, "forged", "startup"}, {L, "forgedmarker", "startup"}}[L/vk.NShards()%4])
+				[]crashCase{{L, "garbage", "startup"}, {L, "garbage", "action"}, {L, "forged", "startup"}, {L, "forgedmarker", "startup"}, {L, "forgedmany", "startup"}}[L/vk.NShards()%5])
 		}
 		rep.Count("exhaustive_cases", len(ec))
 		if runCases(rep, em, ec, dir) {
@@ -766,7 +777,7 @@ func boundaryCases(m *master, r *rand.Rand, budget int) []crashCase {
 		cases = append(cases, crashCase{L, "absent", "startup"}, crashCase{L, "absent", "action"},
 			crashCase{L, "zero", "startup"}, crashCase{L, third, []string{"startup", "action"}[i%2]})
 		if i%3 == 0 {
-			cases = append(cases, crashCase{L, []string{"forged", "forgedmarker"}[i/3%2], "startup"})
+			cases = append(cases, crashCase{L, []string{"forged", "forgedmarker", "forgedmany"}[i/3%3], "startup"})
 		}
 	}
 	return cases
